@@ -22,9 +22,24 @@ Definition merge_params (i o : params) : params :=
     (nz (p_login_hint i) (p_login_hint o))
     (if is_nil (p_notif_token i) then p_notif_token o else p_notif_token i)
     (nz (p_user_code i) (p_user_code o))
-    (if no_res (p_resources i) then p_resources o else p_resources i).
+    (if no_res (p_resources i) then p_resources o else p_resources i)
+    (match p_auth_details i with Some _ => p_auth_details i | None => p_auth_details o end).
 
 Definition redirect_allowed (c : client) (u : string) : bool := mem u (c_redirects c).
+
+(* isAuthDetailTypeAllowed: a client that did not announce its types may use any *)
+Definition client_detail_type_allowed (c : client) (t : string) : bool :=
+  match c_auth_detail_types c with None => true | Some l => mem t l end.
+(* validateAuthorizationDetailsAsOptional: every detail's type is supported by the server and allowed for the client *)
+Definition details_param_ok (cfg : config) (c : client) (d : opt_details) : bool :=
+  match d with
+  | Some l => if cf_auth_details_enabled cfg
+              then forallb (fun x => andb (mem (ad_type x) (cf_auth_detail_types cfg)) (client_detail_type_allowed c (ad_type x))) l
+              else true
+  | None => true
+  end.
+Arguments client_detail_type_allowed : simpl never.
+Arguments details_param_ok : simpl never.
 
 (* validateParamsAsOptionals, the validators that concern modelled parameters, in order *)
 Definition validate_optionals (cfg : config) (p : params) (c : client) : option aerr :=
@@ -54,6 +69,8 @@ Definition validate_optionals (cfg : config) (p : params) (c : client) : option 
   (* code challenge method *)
   if andb (negb (is_empty (p_method p))) (negb (mem (p_method p) (cf_pkce_methods cfg)))
   then Some (ARedirect EInvalidRequest p) else
+  (* authorization details *)
+  if negb (details_param_ok cfg c (p_auth_details p)) then Some (ARedirect EInvalidAuthDetails p) else
   (* resources: every requested one must be configured *)
   if andb (cf_resource_enabled cfg) (andb (negb (no_res (p_resources p))) (negb (subset (p_resources p) (cf_resources cfg))))
   then Some (ARedirect EInvalidTarget p) else
@@ -115,7 +132,8 @@ Definition client_for_par (cfg : config) (c : client) (pushed_redirect : string)
 
 (* ---- policy script: what the embedder's policy does on this invocation ---- *)
 Inductive pol_reply :=
-  | PolSuccess (sub granted : string) (resources : list string)   (* SetUserID, GrantScopes, GrantResources *)
+  | PolSuccess (sub granted : string) (resources : list string) (details : list adetail)
+      (* SetUserID, GrantScopes, GrantResources, GrantAuthorizationDetails *)
   | PolInProgress
   | PolFail                         (* failure, plain/nil error: access_denied *)
   | PolFailWith (e : ecode).        (* failure with a goidc.Error *)
@@ -148,7 +166,7 @@ Definition render_aerr (cfg : config) (c : client) (e : aerr) : out :=
   match e with ALocal x => OErr x | ARedirect x p => nav_err cfg c p x end.
 
 Definition new_session (n : nat) (c : client) (p : params) : asession :=
-  mkASession (mint n KSessId) (c_id c) "" 0 0 0 0 "" 0 0 0%Z 0 "" p [].
+  mkASession (mint n KSessId) (c_id c) "" 0 0 0 0 "" 0 0 0%Z 0 "" p [] [].
 
 (* what authenticate hands back: a finished response, or an error still to be rendered by the
    caller with the client it holds *)
@@ -169,8 +187,9 @@ Definition authenticate (w : world) (n : nat) (now : Z) (s : asession) (pol : po
         | RFail => Ret (AFail (ARedirect EInternalError (a_params s)))
         | _ => Ret (AFail (ARedirect code (a_params s)))
         end)
-  | PolSuccess sub granted res =>
-      let s1 := s <| a_subject := sub |> <| a_granted := granted |> <| a_granted_res := res |> in
+  | PolSuccess sub granted res det =>
+      let s1 := s <| a_subject := sub |> <| a_granted := granted |> <| a_granted_res := res |>
+                  <| a_granted_details := det |> in
       Touch (OA s1)
       (bind (get_client w (a_client s1)) (fun oc =>
        match oc with
@@ -188,8 +207,10 @@ Definition authenticate (w : world) (n : nat) (now : Z) (s : asession) (pol : po
              let jkt := if cf_dpop_enabled cfg
                         then (if is_nil (a_jkt s2) then p_dpop_jkt (a_params s2) else a_jkt s2) else 0%N in
              (* implicitGrantInfo copies the granted resources whether or not the feature is enabled *)
+             (* ... and the granted authorization details (GrantedAuthDetails only: the token carries none) *)
              let g := new_grant n now cfg tid GImplicit (a_subject s2) (a_client s2)
-                        (a_granted s2) (a_granted s2) jkt 0 (a_granted_res s2) (a_granted_res s2) in
+                        (a_granted s2) (a_granted s2) jkt 0 (a_granted_res s2) (a_granted_res s2)
+                        [] (a_granted_details s2) in
              Do (GSave g) (fun r => match r with RFail => Ret (AFail (ALocal EInternalError)) | _ => finish tv (negb (is_nil jkt)) end)
            else finish 0%N false in
          if negb (rt_contains rt "code") then
@@ -317,7 +338,8 @@ Definition push_auth (w : world) (n : nat) (now : Z) (r : preq) : prog out :=
 
 (* POST /bc-authorize *)
 Record breq := mkBReq { br_cred : cred; br_params : params; br_bind : bind_in; br_init_ok : bool;
-                        br_sub : string; br_granted : string; br_granted_res : list string }.
+                        br_sub : string; br_granted : string; br_granted_res : list string;
+                        br_granted_details : list adetail }.
 (* br_init_ok: the embedder's InitBackAuthFunc answer; the harness's function also fixes the
    subject and the granted scopes on the session, as a real one would *)
 Definition init_back_auth (w : world) (n : nat) (now : Z) (r : breq) : prog out :=
@@ -346,7 +368,7 @@ Definition init_back_auth (w : world) (n : nat) (now : Z) (r : breq) : prog out 
                    <| a_jkt := if push then set_pop_jkt cfg (br_bind r) else 0%N |>
                    <| a_x5t := if push then set_pop_x5t cfg (br_bind r) else 0%N |>
                    <| a_subject := br_sub r |> <| a_granted := br_granted r |>
-                   <| a_granted_res := br_granted_res r |> in
+                   <| a_granted_res := br_granted_res r |> <| a_granted_details := br_granted_details r |> in
         if negb (br_init_ok r) then Ret (OErr EAccessDenied) else
         save_a s (fun rs =>
           match rs with RFail => Ret (OErr EInternalError)
@@ -356,7 +378,8 @@ Definition init_back_auth (w : world) (n : nat) (now : Z) (r : breq) : prog out 
   end).
 
 (* ---- CIBA notifications triggered through the provider API ---- *)
-Record notif := mkNotif { nf_ep : id; nf_bearer : id; nf_auth_req : id; nf_at : id; nf_rt : id; nf_err : bool }.
+Record notif := mkNotif { nf_ep : id; nf_bearer : id; nf_auth_req : id; nf_at : id; nf_rt : id; nf_err : bool;
+                          nf_details : list adetail (* authorization_details of a pushed token response *) }.
 
 (* result of NotifyCIBASuccess / NotifyCIBAFailure: error?, requests sent to notification endpoints *)
 Definition notify_success (w : world) (n : nat) (now : Z) (a : id) (hg : hg_reply) : prog (bool * list notif) :=
@@ -370,7 +393,7 @@ Definition notify_success (w : world) (n : nat) (now : Z) (a : id) (hg : hg_repl
     | Some c =>
       match c_ciba_mode c with
       | CibaPoll | CibaNone => Ret (true, [])
-      | CibaPing => Ret (true, [mkNotif (c_notif_ep c) (p_notif_token (a_params s)) (a_ciba s) 0 0 false])
+      | CibaPing => Ret (true, [mkNotif (c_notif_ep c) (p_notif_token (a_params s)) (a_ciba s) 0 0 false []])
       | CibaPush =>
         if geb now (a_expires s) then Ret (false, []) else
         Do (ADel (a_id s)) (fun rd =>
@@ -383,11 +406,12 @@ Definition notify_success (w : world) (n : nat) (now : Z) (a : id) (hg : hg_repl
             let '(tv, tid) := make_token n c GCiba in
             let g := with_refresh n now cfg c
                        (new_grant n now cfg tid GCiba (a_subject s) (a_client s) (a_granted s) (a_granted s)
-                          (a_jkt s) (a_x5t s) (grant_granted_res cfg (a_granted_res s)) (grant_granted_res cfg (a_granted_res s))) in
+                          (a_jkt s) (a_x5t s) (grant_granted_res cfg (a_granted_res s)) (grant_granted_res cfg (a_granted_res s))
+                          (grant_granted_details cfg (a_granted_details s)) (grant_granted_details cfg (a_granted_details s))) in
             Do (GSave g) (fun rs =>
             match rs with
             | RFail => Ret (false, [])
-            | _ => Ret (true, [mkNotif (c_notif_ep c) (p_notif_token (a_params s)) (a_ciba s) tv (g_refresh g) false])
+            | _ => Ret (true, [mkNotif (c_notif_ep c) (p_notif_token (a_params s)) (a_ciba s) tv (g_refresh g) false (g_active_details g)])
             end)
           end
         end)
@@ -406,12 +430,12 @@ Definition notify_failure (w : world) (a : id) : prog (bool * list notif) :=
     | Some c =>
       match c_ciba_mode c with
       | CibaPoll | CibaNone => Ret (true, [])
-      | CibaPing => Ret (true, [mkNotif (c_notif_ep c) (p_notif_token (a_params s)) (a_ciba s) 0 0 false])
+      | CibaPing => Ret (true, [mkNotif (c_notif_ep c) (p_notif_token (a_params s)) (a_ciba s) 0 0 false []])
       | CibaPush =>
         Do (ADel (a_id s)) (fun rd =>
         match rd with
         | RFail => Ret (false, [])
-        | _ => Ret (true, [mkNotif (c_notif_ep c) (p_notif_token (a_params s)) (a_ciba s) 0 0 true])
+        | _ => Ret (true, [mkNotif (c_notif_ep c) (p_notif_token (a_params s)) (a_ciba s) 0 0 true []])
         end)
       end
     end)
